@@ -150,6 +150,8 @@ class _Analyzer:
         self.changed = False
         self.memo: Dict[tuple, Set[Atom]] = {}
         self.cuts = 0
+        self.defmemo: Dict[tuple, list] = {}
+        self._frames: List[list] = []
         self.used: Set[str] = set()
         self.sites: Dict[int, tuple] = {}
         self.compute_facts()
@@ -409,64 +411,100 @@ class _Analyzer:
         for d in defs:
             k2 = (nm, d)
             if k2 in seen:
-                self.cuts += 1          # a definition on the current resolution stack: the result below is context dependent
+                self._note(hit=k2)      # a definition on the current resolution stack is not followed again
                 continue
-            dkey = ("def", nm, d)
-            if dkey in self.memo:
-                out |= self.memo[dkey]
+            # the contribution of a definition depends on the context only through which of the definitions it (transitively)
+            # consults are on the resolution stack: it is reused wherever exactly the same ones are cut
+            got = None
+            for V, H, res in self.defmemo.get(k2, ()):
+                if H <= seen and not (V & seen):
+                    got = (V, H, res)
+                    break
+            if got is not None:
+                self._note(visited=got[0] | {k2}, hits=got[1])
+                out |= got[2]
                 continue
-            cuts0 = self.cuts
-            saved, out = out, set()
-            s2 = seen | {k2}
-            if d == self.g.entry:
-                out = saved
-                if self.f.is_method and nm == self.f.self_name:
-                    out.add((("self",), ()))
-                else:
-                    dflt = self.f.defaults.get(nm)
-                    out.add((("param", nm), ()))
-                continue
-            st = self.g.stmt[d]
-            if isinstance(st, ast.Assign):
-                comp = None
-                for t in st.targets:
-                    if isinstance(t, (ast.Tuple, ast.List)) and nm in C.target_names(t):
-                        comp = self._paired_component(t, st.value, nm, d)
-                if comp is not None:
-                    # a, b = x, y  /  pair = (x, y); a, b = pair : the name gets ITS component only
-                    out |= self.val(comp[0], comp[1], s2)
-                    if self.cuts == cuts0:
-                        self.memo[dkey] = set(out)
-                    out = saved | out
-                    continue
-                v = self.val(st.value, d, s2)
-                for t in st.targets:
-                    if nm in C.target_names(t):
-                        out |= v if isinstance(t, ast.Name) else (self.field(v, "[]") | self.field(self.field(v, "[]"), "[]"))
-            elif isinstance(st, ast.AnnAssign):
-                out |= self.val(st.value, d, s2)
-            elif isinstance(st, ast.AugAssign):
-                out |= self.val(st.value, d, s2)
-                for d0 in self.rd.defs_reaching(d, nm):
-                    if (nm, d0) not in s2:
-                        out |= self.name(ast.copy_location(ast.Name(id=nm, ctx=ast.Load()), st), d, s2) if False else set()
-            elif isinstance(st, ast.For):
-                base = self.field(self.val(st.iter, d, s2), "[]", d)
-                out |= base if isinstance(st.target, ast.Name) else (base | self.field(base, "[]"))
-            elif isinstance(st, (ast.With, ast.ExceptHandler, ast.Import, ast.ImportFrom)):
-                pass
-            else:
-                h = C.header(st)
-                if h is not None:
-                    for n in ast.walk(h):
-                        if isinstance(n, ast.NamedExpr) and nm in C.target_names(n.target):
-                            out |= self.val(n.value, d, s2)
-            if self.cuts == cuts0:
-                # nothing was cut while this definition was evaluated: its contribution does not depend on the use site
-                self.memo[dkey] = set(out)
-            out = saved | out
+            frame = [set(), set()]
+            self._frames.append(frame)
+            try:
+                contrib = self._def_atoms(nm, d, seen | {k2})
+            finally:
+                self._frames.pop()
+            V, H = frame
+            H.discard(k2)
+            V.discard(k2)
+            ents = self.defmemo.setdefault(k2, [])
+            if len(ents) < 12:
+                ents.append((frozenset(V), frozenset(H), contrib))
+            self._note(visited=V | {k2}, hits=H)
+            out |= contrib
         if not seen:
             self.memo[key] = out
+        return out
+
+    def _note(self, hit=None, visited=None, hits=None) -> None:
+        if not self._frames:
+            return
+        top = self._frames[-1]
+        if hit is not None:
+            top[1].add(hit)
+        if visited:
+            top[0] |= visited
+        if hits:
+            top[1] |= hits
+
+    def _def_atoms(self, nm: str, d: int, s2: frozenset) -> Set[Atom]:
+        """what the definition of `nm` at node d contributes"""
+        out: Set[Atom] = set()
+        if d == self.g.entry:
+            if self.f.is_method and nm == self.f.self_name:
+                out.add((("self",), ()))
+            else:
+                out.add((("param", nm), ()))
+            return out
+        st = self.g.stmt[d]
+        if isinstance(st, ast.Assign):
+            comp = None
+            for t in st.targets:
+                if isinstance(t, (ast.Tuple, ast.List)) and nm in C.target_names(t):
+                    comp = self._paired_component(t, st.value, nm, d)
+            if comp is not None:
+                # a, b = x, y  /  pair = (x, y); a, b = pair : the name gets ITS component only
+                return set(self.val(comp[0], comp[1], s2))
+            v = self.val(st.value, d, s2)
+            for t in st.targets:
+                if nm in C.target_names(t):
+                    out |= v if isinstance(t, ast.Name) else (self.field(v, "[]") | self.field(self.field(v, "[]"), "[]"))
+        elif isinstance(st, ast.AnnAssign):
+            out |= self.val(st.value, d, s2)
+        elif isinstance(st, ast.AugAssign):
+            out |= self.val(st.value, d, s2)
+        elif isinstance(st, ast.For):
+            it, tg = st.iter, st.target
+            pos = None
+            if isinstance(tg, (ast.Tuple, ast.List)) and isinstance(it, ast.Call) and isinstance(it.func, ast.Name) and not it.keywords \
+                    and not self.rd.defs_reaching(d, it.func.id) and not any(isinstance(e, ast.Starred) for e in list(tg.elts) + list(it.args)):
+                # for a, b in zip(X, Y) / for i, x in enumerate(X): every name gets the elements of ITS iterable only
+                idx = [i for i, e in enumerate(tg.elts) if nm in C.target_names(e)]
+                if it.func.id == "zip" and len(it.args) == len(tg.elts) and len(idx) == 1:
+                    pos = (it.args[idx[0]], tg.elts[idx[0]])
+                elif it.func.id == "enumerate" and len(it.args) >= 1 and len(tg.elts) == 2 and len(idx) == 1:
+                    pos = (it.args[0], tg.elts[1]) if idx[0] == 1 else (None, None)
+            if pos is not None:
+                if pos[0] is not None:
+                    base = self.field(self.val(pos[0], d, s2), "[]", d)
+                    out |= base if isinstance(pos[1], ast.Name) else (base | self.field(base, "[]"))
+            else:
+                base = self.field(self.val(st.iter, d, s2), "[]", d)
+                out |= base if isinstance(st.target, ast.Name) else (base | self.field(base, "[]"))
+        elif isinstance(st, (ast.With, ast.ExceptHandler, ast.Import, ast.ImportFrom)):
+            pass
+        else:
+            h = C.header(st)
+            if h is not None:
+                for n in ast.walk(h):
+                    if isinstance(n, ast.NamedExpr) and nm in C.target_names(n.target):
+                        out |= self.val(n.value, d, s2)
         return out
 
     def _paired_component(self, target: ast.AST, value: ast.AST, nm: str, at: int, depth: int = 0):
